@@ -302,9 +302,16 @@ class ConflictResolver:
             # find the next 'word' to add to the prefix.
             available_words = list(filter(bool, explicit_prefix.split(".")))
             used_words = list(filter(bool, current_prefix.split(".")))
-            assert len(available_words) > len(
-                used_words
-            ), "There should at least one word we haven't used yet!"
+            if len(available_words) <= len(used_words):
+                # This happens when the prefix wasn't generated by us (e.g. a user-supplied prefix
+                # passed to `add_arguments`): there is no word left to add in front of it.
+                raise ConflictResolutionError(
+                    f"Cannot fix the conflict for the option string {conflict.option_string}: "
+                    f"the field {field_wrapper} has the prefix {current_prefix!r}, and there is no "
+                    f"unused word of its destination ({explicit_prefix!r}) left to add to it.\n"
+                    "Consider modifying either the destination or the prefix passed to "
+                    "`parser.add_arguments(<dataclass>, dest=destination, prefix=prefix)`"
+                )
             logger.debug(f"Available words: {available_words}, used_words: {used_words}")
 
             n_available_words = len(available_words)
